@@ -288,6 +288,26 @@ def build_usegraph(p):
             f.add("    w = ", U("y", names["y"]))
         f.add("  end subroutine inner")
         f.add("end program user_p")
+    # A second using scope in another file, reaching the graph through one module only, whose host declares its own x:
+    # what the first scope's lookups did to the USE statements they walked through must not show here (run_case asks
+    # every site a second time after all others).  Only for graphs without PRIVATE defaults (D05a/D05b lie there).
+    last = max((j for j, spec in enumerate(uedges) if spec), default=None)
+    if last is not None and all(d == "public" for (_, d) in mods):
+        ex = exp_[last]
+        g = ws.file("second.f90")
+        g.add("module second_host")
+        g.add("  implicit none")
+        g.add("  integer :: ", D("x", "SECOND::x"))
+        g.add("contains")
+        g.add("  subroutine second_user()")
+        g.add(f"    use um{last}")
+        g.add("    integer :: w")
+        bx = ex.get("x", "SECOND::x")
+        if bx != AMBIG:
+            g.add("    w = ", U("x", bx))
+        g.add("    w = ", U(f"z{last}", f"M{last}::z"))
+        g.add("  end subroutine second_user")
+        g.add("end module second_host")
     return ws
 
 
@@ -669,7 +689,8 @@ def run_case(job, acc: Acc):
     s.initialize(root)
     uses = [o for o in ws.occurrences() if not o.decl and o.ent is not None]
     bad = []
-    for o in uses:
+    # two passes in the one session: an answer must not depend on which sites were asked before
+    for o in uses + uses:
         want = ws.decl_of(o.ent)
         path = os.path.join(root, o.file)
         r = s.result("textDocument/definition", Server.tdpp(path, o.line, (o.col + o.end) // 2))
